@@ -30,7 +30,7 @@ CONFIG = {
     'quick': {'shards': 16, 'cases': 5, 'timeout': 900, 'floor': 30, 'mp_every': 5},
     'thorough': {'shards': 32, 'cases': 70, 'timeout': 3400, 'floor': 800, 'mp_every': 35},
 }
-REQUIRED = ['scheduled_runs', 'runs_with_cancellation', 'runs_with_out_of_order_exec', 'runs_with_not_ready',
+REQUIRED = ['cases_with_progress_bar', 'scheduled_runs', 'runs_with_cancellation', 'runs_with_out_of_order_exec', 'runs_with_not_ready',
             'sampler_rej', 'sampler_smc', 'updates_checked', 'distinct_interleaving', 'mp_runs']
 
 
@@ -71,7 +71,7 @@ def gen_cases(ctx):
                 # keep the overall acceptance (product of quantiles) above a few percent: the sampler retries for ever by design
                 kw = {'quantiles': [float(rng.choice([0.5, 0.7]))] * rounds if rounds > 2 else [float(rng.choice([0.3, 0.5, 0.7]))] * rounds}
                 spec['disc']['flavour'] = 'cont'
-        case = {'spec': spec, 'sampler': sampler, 'bs': bs, 'n': n, 'kw': kw, 'seed': seed}
+        case = {'spec': spec, 'sampler': sampler, 'bs': bs, 'n': n, 'kw': kw, 'seed': seed, 'bar': bool(rng.random() < 0.4)}
         if sampler == 'smc' and rng.random() < 0.3:
             case['cont'] = {'thresholds': [q(0.1)]} if 'thresholds' in kw else {'quantiles': [0.5]}
         case['schedules'] = [{'seed': int(rng.integers(0, 2 ** 31 - 1)), 'cores': int(rng.integers(1, 9)),
@@ -100,10 +100,10 @@ def _run(client, case, mpb, delays=None):
         return upd(batch, batch_index)
 
     smp.update = recording_update
-    r = smp.sample(case['n'], bar=False, **case['kw'])
+    r = smp.sample(case['n'], bar=bool(case.get('bar')), **case['kw'])
     results = [_fields(case, r)]
     if case.get('cont'):
-        r2 = smp.sample(case['n'], bar=False, **case['cont'])
+        r2 = smp.sample(case['n'], bar=bool(case.get('bar')), **case['cont'])
         results.append(_fields(case, r2))
     return results, hist
 
@@ -151,6 +151,7 @@ def run_case(ctx, case):
     import elfi.client
     import elfi.clients.native as nat
     ctx.event('sampler_' + case['sampler'])
+    ctx.event('cases_with_progress_bar', bool(case.get('bar')))
     try:
         ref, hist = _run(nat.Client(), case, 1)
         _check_hist(hist, 'sequential')
